@@ -311,7 +311,6 @@ PROPS = {
         lemmas=["HoldAll", "SumCong.Gm", "SumCong.Gp", "SumIV.concat"],
         trusted=["TB-z3", "TB-py", "TB-ifml"],
         assumed=[
-            "_gamma memoises Symbol(name, INT)",
             "precondition of translate_to_csp: no fixed_gamma_* values (negated carve-out of the known finding KF-C19-fixed-gamma)",
             "L19: gamma-_k - gamma+_k > mv_k - mf_k for the minima of the compilation entries iff the revised ranking accepts conditional k (arithmetic of minima)",
             "the three compilations list, per conditional, exactly the verifying / falsifying worlds with their rank and the other conditionals they verify / falsify (bounded: agreement of the compilations with a brute force)",
